@@ -15,6 +15,9 @@ def run(rep, tier, seed, replay):
                 "and free strings over the expression's alphabet; every capture index incl. one out of range; byte offsets of captures are "
                 "recovered from the borrowed text; non-trivial = distinct (expression, path) pairs that match and have a participating capture")
     exprs = lib.inputs(rep, "C04", tier, seed, 1200, 15000, replay)
+    if replay is None:
+        import gen as _gen
+        exprs += [e for e in _gen.nested_tree_edge_family() if e not in set(exprs)]
     P = lib.Pair(exprs)
     h, m = P.h, P.m
     built = [k for k in range(len(exprs)) if P.impl[k]["ok"]]
